@@ -17,8 +17,8 @@ W __CPROVER_uninterpreted_habs4(ARGS, unsigned char); W __CPROVER_uninterpreted_
 W __CPROVER_uninterpreted_habs6(ARGS, unsigned char);
 W __CPROVER_uninterpreted_hfin0(ARGS); W __CPROVER_uninterpreted_hfin1(ARGS);
 W __CPROVER_uninterpreted_hfin2(ARGS); W __CPROVER_uninterpreted_hfin3(ARGS);
-int abs_napp;
-int abs_oneshot;      /* ghost: number of one-shot tinyjambu_hash() calls */
+unsigned abs_napp;
+unsigned abs_oneshot;      /* ghost: number of one-shot tinyjambu_hash() calls */
 #define ST(s) s[0], s[1], s[2], s[3], s[4], s[5], s[6]
 #define LIVE 0x4C495645ULL
 
